@@ -110,6 +110,9 @@ def build_pass(p, classes, nglyphs, sub_base):
     rules = p["rules"]
     nr = len(rules)
     fsm = build_fsm(rules, classes, nglyphs) if nr else {"ncols": 0, "ranges": [], "trans": [], "nstates": 0, "ntrans": 0, "nsuccess": 0, "rulemap": []}
+    for (st, col, tgt) in p.get("trans_patch", []):        # deliberately odd but loadable state tables (cycles)
+        if st < len(fsm["trans"]) and col < fsm["ncols"] and tgt < fsm["nstates"]:
+            fsm["trans"][st][col] = tgt
     pres = [r["pre"] for r in rules] or [0]
     minpre, maxpre = min(pres), max(pres)
     if "minpre" in p:
